@@ -34,11 +34,11 @@ ASSUMPTIONS = ['reference semantics = DESIGN.md Appendix A', 'only directly conn
 def plan(tier):
     if tier == 'thorough':
         return {'shards': 16, 'timeout_s': 1700}
-    return {'shards': 4, 'timeout_s': 280}
+    return {'shards': 8, 'timeout_s': 280}
 
 
 def n_programs(tier):
-    return 400 if tier == 'thorough' else 25
+    return 400 if tier == 'thorough' else 50
 
 
 OPS = ['map', 'map', 'starmap', 'filter', 'accumulate', 'accumulate', 'partition', 'partition_unique',
